@@ -12,6 +12,7 @@ import (
 	"context"
 	"errors"
 	"fmt"
+	"runtime"
 	"strings"
 
 	"diagonal.works/b6"
@@ -19,6 +20,7 @@ import (
 	"diagonal.works/b6/ingest"
 	"diagonal.works/b6/osm"
 	"verif/kit"
+	"verif/racekit"
 	"verif/sched"
 	wk "verif/worldkit"
 )
@@ -27,12 +29,12 @@ var errBoom = errors.New("boom")
 
 // obs is what one execution observed (reset by each body run).
 type obsT struct {
-	calls        int   // callbacks begun
-	callsAfter   int   // callbacks begun after the first failing callback returned
-	failed       bool  // a failing callback has returned
-	returned     bool  // the streaming call returned
-	ret          error // what it returned
-	lateCalls    int   // callbacks begun after the call returned
+	calls      int   // callbacks begun
+	callsAfter int   // callbacks begun after the first failing callback returned
+	failed     bool  // a failing callback has returned
+	returned   bool  // the streaming call returned
+	ret        error // what it returned
+	lateCalls  int   // callbacks begun after the call returned
 }
 
 var obs obsT
@@ -243,10 +245,22 @@ func scenarios(tier string) []scenario {
 }
 
 func main() {
+	if n, ok := racekit.BodyMode(); ok {
+		// race pass: the same bodies free-running (no controlled execution is
+		// active, so the shims are the real primitives), un-rewritten tree, -race
+		runtime.GOMAXPROCS(16)
+		for it := 0; it < n; it++ {
+			for _, s := range scenarios("thorough") {
+				s.body()()
+			}
+		}
+		fmt.Println("race pass done")
+		return
+	}
 	kit.Main(&kit.Check{
 		ID: "C28", Level: "model_checking",
-		Rule: "scenario = (mechanism, items, goroutines, failing callback position, fail-once|fail-always); per scenario every interleaving at the synchronisation points of the rewritten real code plus a yield inside the callback, iterative preemption bounds with happens-before caching. Non-trivial = execution with at least one scheduling choice; distinct = happens-before keys at choice points.",
-		Assumptions: []string{"code between two synchronisation operations runs atomically (data-race freedom is checked separately)", "sync/atomic operations are not scheduling points", "map iteration uses one fixed (sorted) order"},
+		Rule:          "scenario = (mechanism, items, goroutines, failing callback position, fail-once|fail-always); per scenario every interleaving at the synchronisation points of the rewritten real code plus a yield inside the callback, iterative preemption bounds with happens-before caching. Non-trivial = execution with at least one scheduling choice; distinct = happens-before keys at choice points.",
+		Assumptions:   []string{"code between two synchronisation operations runs atomically (data-race freedom is checked separately)", "sync/atomic operations are not scheduling points", "map iteration uses one fixed (sorted) order"},
 		QuickDeadline: 200e9, ThoroughDeadline: 1500e9, CaseTimeout: 300e9, Chunk: 1, WorkerEnv: []string{"GOMAXPROCS=1"},
 		Build: func(tier string) (kit.Space, string) {
 			sc := scenarios(tier)
@@ -256,9 +270,18 @@ func main() {
 				bound = 3
 				maxExec = 400000
 			}
-			return kit.FuncSpace{N: int64(len(sc)), F: func(i int64) kit.Result {
-				s := sc[i]
+			return kit.FuncSpace{N: int64(len(sc)) + 1, F: func(i int64) kit.Result {
 				var r kit.Result
+				if i == int64(len(sc)) {
+					// auxiliary: the same bodies free-running under the race detector
+					iters := "10"
+					if tier == "thorough" {
+						iters = "300"
+					}
+					racekit.Pass(&r, "c28", "./checks/c28", "", nil, []string{"VERIF_RACE_BODY=" + iters})
+					return r
+				}
+				s := sc[i]
 				res := sched.Explore(s.body(), s.check, sched.Options{MaxPreemptions: bound, MaxExecutions: maxExec})
 				r.Evals = res.Executions
 				r.States = res.States
